@@ -419,6 +419,67 @@ Proof.
   - now apply IH.
 Qed.
 
+(* NewReader on a finalized writer whose host tables are in order *)
+Section ReaderOfWriter.
+  Variables (gcap : N) (w : writer) (r : reader).
+  Hypothesis Hcap4 : gcap <= 4 * P16.
+  Hypothesis Hok : Forall (group_ok gcap) (w_groups w).
+  Hypothesis Hsz : Forall size_ok (w_groups w).
+  Hypothesis Hhosts : total_hosts 4 (w_groups w) < P32 /\ total_hosts 16 (w_groups w) < P32.
+  Hypothesis Hr : new_reader (finalize w) = Some r.
+
+  Lemma rw_file : r_file r = finalize w.
+  Proof. unfold new_reader, new_reader_gen in Hr. destruct (f_streams (finalize w)); [discriminate|]. now inversion Hr. Qed.
+  Lemma rw_streams : f_streams (r_file r) = w_streams w.
+  Proof. rewrite rw_file. unfold finalize. now destruct (import_section _ _ _). Qed.
+  Lemma rw_packets : f_packets (r_file r) = w_packets w.
+  Proof. rewrite rw_file. unfold finalize. now destruct (import_section _ _ _). Qed.
+  Lemma rw_data : f_data (r_file r) = w_data w.
+  Proof. rewrite rw_file. unfold finalize. now destruct (import_section _ _ _). Qed.
+  Lemma rw_ref : f_ref (r_file r) = w_ref w.
+  Proof. rewrite rw_file. unfold finalize. now destruct (import_section _ _ _). Qed.
+  Lemma rw_groups : r_groups r = map (fun g => (hg_size g, hg_hosts g)) (w_groups w).
+  Proof.
+    unfold new_reader, new_reader_gen in Hr. destruct (f_streams (finalize w)); [discriminate|]. inversion Hr. cbn [r_groups].
+    apply (reader_groups_of_writer gcap w); tauto.
+  Qed.
+  Lemma rw_ids : r_ids r = id_map (w_streams w) 0 [] /\ r_min r = fold_left N.min (map st_id (w_streams w)) (P64 - 1)
+                 /\ r_max r = fold_left N.max (map st_id (w_streams w)) 0.
+  Proof.
+    pose proof rw_streams as Hs. rewrite rw_file in Hs.
+    unfold new_reader, new_reader_gen in Hr. rewrite Hs in Hr.
+    destruct (w_streams w) as [|s0 l]; [discriminate|]. inversion Hr. cbn [r_ids r_min r_max]. auto.
+  Qed.
+  Lemma rw_host_of g h x : host_at (w_groups w) g h = Some x -> host_of r g h = x.
+  Proof.
+    unfold host_at, host_of. rewrite rw_groups, !nthN_nth_error, nth_error_map.
+    destruct (nth_error (w_groups w) (N.to_nat g)) as [grp|]; [|discriminate]. cbn [option_map].
+    rewrite nthN_nth_error. now intros ->.
+  Qed.
+
+  (* StreamByID on distinct ids *)
+  Lemma rw_stream_by_id k rec :
+    NoDup (map st_id (w_streams w)) -> nth_error (w_streams w) k = Some rec ->
+    stream_by_id r (st_id rec) = Some (rec, N.of_nat k).
+  Proof.
+    intros Hnd Hrec. destruct rw_ids as (Hi & Hmin & Hmax). unfold stream_by_id.
+    assert (Hin : In (st_id rec) (map st_id (w_streams w))) by (apply in_map; eapply nth_error_In; eauto).
+    pose proof (fold_min_le (map st_id (w_streams w)) (P64 - 1) _ (or_introl Hin)).
+    pose proof (fold_max_ge (map st_id (w_streams w)) 0 _ (or_introl Hin)).
+    rewrite Hmin, Hmax.
+    destruct (N.ltb_spec (st_id rec) (fold_left N.min (map st_id (w_streams w)) (P64 - 1))); [lia|].
+    destruct (N.ltb_spec (fold_left N.max (map st_id (w_streams w)) 0) (st_id rec)); [lia|]. cbn [orb].
+    rewrite Hi, (assoc_id_map_distinct (w_streams w) k rec Hnd Hrec).
+    unfold stream_by_index. rewrite rw_streams, nthN_nth_error, Nat2N.id, Hrec. reflexivity.
+  Qed.
+  Lemma rw_stream_by_id_none id : ~ In id (map st_id (w_streams w)) -> stream_by_id r id = None.
+  Proof.
+    intros Hn. destruct rw_ids as (Hi & _). unfold stream_by_id.
+    destruct ((id <? r_min r) || (r_max r <? id)); [reflexivity|].
+    now rewrite Hi, assoc_id_map_none.
+  Qed.
+End ReaderOfWriter.
+
 Section ReadBack.
   Variables (gcap : N) (L : list (N * istream)) (w : writer) (r : reader).
   Hypothesis Hcap : 16 < gcap <= 4 * P16.
@@ -430,57 +491,27 @@ Section ReadBack.
 
   Lemma rb_winv : winv gcap w L.
   Proof. apply (add_streams_winv gcap ltac:(lia) L new_writer [] w (winv_new gcap) Hwf Hadd). Qed.
-
-  Lemma rb_file : r_file r = finalize w.
-  Proof. unfold new_reader, new_reader_gen in Hr. destruct (f_streams (finalize w)); [discriminate|]. now inversion Hr. Qed.
-  Lemma rb_streams : f_streams (r_file r) = w_streams w.
-  Proof. rewrite rb_file. unfold finalize. now destruct (import_section _ _ _). Qed.
-  Lemma rb_ref : f_ref (r_file r) = w_ref w.
-  Proof. rewrite rb_file. unfold finalize. now destruct (import_section _ _ _). Qed.
-  Lemma rb_groups : r_groups r = map (fun g => (hg_size g, hg_hosts g)) (w_groups w).
-  Proof.
-    destruct rb_winv as (_ & Hok & Hsz & _).
-    unfold new_reader, new_reader_gen in Hr. destruct (f_streams (finalize w)); [discriminate|]. inversion Hr. cbn [r_groups].
-    apply (reader_groups_of_writer gcap w); try tauto; lia.
-  Qed.
-  Lemma rb_ids : r_ids r = id_map (w_streams w) 0 [] /\ r_min r = fold_left N.min (map st_id (w_streams w)) (P64 - 1)
-                 /\ r_max r = fold_left N.max (map st_id (w_streams w)) 0.
-  Proof.
-    pose proof rb_streams as Hs. rewrite rb_file in Hs.
-    unfold new_reader, new_reader_gen in Hr. rewrite Hs in Hr.
-    destruct (w_streams w) as [|s0 l]; [discriminate|]. inversion Hr. cbn [r_ids r_min r_max]. auto.
-  Qed.
-
-  Lemma rb_host_of g h x : host_at (w_groups w) g h = Some x -> host_of r g h = x.
-  Proof.
-    unfold host_at, host_of. rewrite rb_groups, !nthN_nth_error, nth_error_map.
-    destruct (nth_error (w_groups w) (N.to_nat g)) as [grp|]; [|discriminate]. cbn [option_map].
-    rewrite nthN_nth_error. now intros ->.
-  Qed.
+  Let Hok : Forall (group_ok gcap) (w_groups w) := proj1 (proj2 rb_winv).
+  Let Hsz : Forall size_ok (w_groups w) := proj1 (proj2 (proj2 rb_winv)).
+  Let Hc4 : gcap <= 4 * P16 := proj2 Hcap.
+  Definition rb_streams := rw_streams w r Hr.
+  Definition rb_ref := rw_ref w r Hr.
+  Definition rb_ids := rw_ids w r Hr.
+  Definition rb_host_of := rw_host_of gcap w r Hc4 Hok Hsz Hhosts Hr.
 
   Lemma rb_stream_ids : map st_id (w_streams w) = ids_of L.
-  Proof. destruct rb_winv as (HF & _). apply (stored_ids _ _ _ _ HF). Qed.
+  Proof. pose proof rb_winv as (HF & _). apply (stored_ids _ _ _ _ HF). Qed.
 
   (* Theorem 1, id lookups and metadata *)
   Theorem stream_by_id_stored k id s :
     nth_error L k = Some (id, s) ->
     exists rec, stream_by_id r id = Some (rec, N.of_nat k) /\ nth_error (all_streams r) k = Some rec /\ meta_matches r rec id s.
   Proof.
-    intros Hk. destruct rb_winv as (HF & _).
+    intros Hk. pose proof rb_winv as (HF & _).
     destruct (Forall2_nth_r _ _ _ HF _ _ Hk) as (rec & Hrec & Hst). cbn [fst snd] in Hst.
-    destruct rb_ids as (Hi & Hmin & Hmax).
     exists rec. split; [|split].
-    - unfold stream_by_id.
-      assert (Hin : In id (map st_id (w_streams w))).
-      { rewrite <- (sd_id _ _ _ _ _ Hst). apply in_map. eapply nth_error_In; eauto. }
-      pose proof (fold_min_le (map st_id (w_streams w)) (P64 - 1) id (or_introl Hin)).
-      pose proof (fold_max_ge (map st_id (w_streams w)) 0 id (or_introl Hin)).
-      rewrite Hmin, Hmax.
-      destruct (N.ltb_spec id (fold_left N.min (map st_id (w_streams w)) (P64 - 1))); [lia|].
-      destruct (N.ltb_spec (fold_left N.max (map st_id (w_streams w)) 0) id); [lia|]. cbn [orb].
-      rewrite Hi, <- (sd_id _ _ _ _ _ Hst).
-      rewrite (assoc_id_map_distinct (w_streams w) k rec) by (rewrite ?rb_stream_ids; assumption).
-      unfold stream_by_index. rewrite rb_streams, nthN_nth_error, Nat2N.id, Hrec. reflexivity.
+    - rewrite <- (sd_id _ _ _ _ _ Hst). apply (rw_stream_by_id gcap w r Hc4 Hhosts Hr); [|assumption].
+      now rewrite rb_stream_ids.
     - unfold all_streams. now rewrite rb_streams.
     - destruct Hst as [S1 S2 S3 S4 S5 S6 S7 S8 S9 S10 S11 S12 S13 S14].
       unfold meta_matches, client_host, server_host, first_packet_time, last_packet_time.
@@ -489,9 +520,7 @@ Section ReadBack.
 
   Theorem stream_by_id_other id : ~ In id (ids_of L) -> stream_by_id r id = None.
   Proof.
-    intros Hn. destruct rb_ids as (Hi & Hmin & Hmax). unfold stream_by_id.
-    destruct ((id <? r_min r) || (r_max r <? id)); [reflexivity|].
-    rewrite Hi, assoc_id_map_none; [reflexivity|]. now rewrite rb_stream_ids.
+    intros Hn. apply (rw_stream_by_id_none w r Hr). now rewrite rb_stream_ids.
   Qed.
 
   (* AllStreams / StreamIDs / Min / Max enumerate exactly the stored ids *)
